@@ -213,3 +213,5 @@ func caseOf(sc *Scenario, args []string, extra map[string]interface{}) func() in
 		return m
 	}
 }
+
+func sortStrings(s []string) { sort.Strings(s) }
